@@ -860,6 +860,19 @@ class World:
                 return []
             inner_op = dict(inner_op)
             inner_op["v"] = {"t": "obj", "i": mcont[inner_op["v"]["at"] % len(mcont)].uid}
+        elif ckind == "set" and mcont:
+            # item specs carrying "cur" name a current member (k-th by uid)
+            members = sorted(mcont, key=lambda x: x.uid)
+
+            def cur_members(x):
+                if isinstance(x, dict):
+                    if x.get("t") == "ref" and "cur" in x:
+                        return {"t": "obj", "i": members[x["cur"] % len(members)].uid}
+                    return {k: cur_members(v) for k, v in x.items()}
+                if isinstance(x, list):
+                    return [cur_members(v) for v in x]
+                return x
+            inner_op = cur_members(inner_op)
         elif ckind == "list" and mcont:
             # item specs carrying "at" name an object that is in the list now: the
             # mutation keeps / repeats / permutes current items (removed and added
@@ -1131,7 +1144,10 @@ def gen_dict_inner(r, npool):
 
 def gen_set_inner(r, npool):
     def item(validating):
-        return ref_spec(r, npool, 0.15 if validating else 0.0)
+        sp = ref_spec(r, npool, 0.15 if validating else 0.0)
+        if r.random() < 0.25:
+            sp["cur"] = r.randrange(4)      # a current member of the set (if it has any)
+        return sp
     op, _ = c07.gen_set_op(r, item, False, SET_KINDS)
     for f in ("iter_raise_at", "iter_raise_arg", "iter_exc"):
         op.pop(f, None)
